@@ -77,7 +77,7 @@ def run(ctx):
         # The in-basis descriptor comes first in every other one, so that the failure happens after part of the work is done.
         first = len(jobs) - 1
         for k, d in enumerate(outside[:ctx.n(3, 20)]):
-            mp = [[rng.choice(usable), rng.choice([1, 2, 3])], [rng.choice(usable), 1], [d, 2]]
+            mp = [[rng.choice(usable), rng.choice([1, 2, 3])], [rng.choice(usable), 1], [d, rng.choice([2, 1, 0, 0.0, -1])]]
             if k % 2:
                 rng.shuffle(mp)
             j_ = {'op': 'estimate', 'lib': spec, 'mapping': mp, 'Ts': Ts, 'props': ('cp', 'h', 's'), 'se': True, 'kind': 'out-of-basis'}
